@@ -50,6 +50,7 @@ impl Check for C09 {
             Phase { name: "1-3 random faults", cases: scale(if q { 16000 } else { 300000 }, b), exhaustive: false },
             Phase { name: "arrays of arity 0-7 over slot palettes", cases: scale(if q { 20000 } else { 300000 }, b), exhaustive: false },
             Phase { name: "fault planted at each depth of nested recipients / signatures", cases: scale(if q { 4000 } else { 60000 }, b), exhaustive: false },
+            Phase { name: "nested slot holding one bare COSE_Signature / COSE_recipient instead of an array of them; nested arrays of 250-300 entries with a fault at a late index", cases: scale(if q { 200 } else { 4000 }, b), exhaustive: false },
         ]
     }
     fn run_case(&self, ctx: &mut Ctx, phase: usize, idx: u64) {
@@ -62,6 +63,39 @@ impl Check for C09 {
                 let n = ctx.rng.below(8);
                 let a: Vec<Item> = (0..n).map(|_| slot_value(ctx)).collect();
                 iff::offer(ctx, &Item::Array(a), &MSG_TYPES, 1, false, true);
+            }
+            5 => {
+                let o = GenOpts::wire();
+                let sig = model::enc_signature(&gen::gen_signature(&mut ctx.rng, &o, 2));
+                let mut r = gen::gen_recipient(&mut ctx.rng, &o, 3);
+                r.recipients.clear();
+                let rcp = model::enc_recipient(&r);
+                let z = Item::Bytes(vec![]);
+                let e = Item::Map(vec![]);
+                // the nested slot is the element itself rather than an array of elements
+                let bare = [
+                    Item::Array(vec![z.clone(), e.clone(), Item::Null, sig.clone()]),
+                    Item::Array(vec![z.clone(), e.clone(), Item::Null, rcp.clone()]),
+                    Item::Array(vec![z.clone(), e.clone(), Item::Null, z.clone(), rcp.clone()]),
+                    Item::Array(vec![z.clone(), e.clone(), Item::Null, Item::Array(vec![z.clone(), e.clone(), Item::Null, rcp.clone()])]),
+                ];
+                for it in bare.iter() {
+                    iff::offer(ctx, it, &MSG_TYPES, 0, false, true);
+                }
+                // long nested arrays: every element must be validated, also beyond the 256th
+                let n = 250 + ctx.rng.below(60);
+                let bad_at = if ctx.rng.chance(3, 4) { Some(n - 1 - ctx.rng.below(n.min(50))) } else { None };
+                let small_sig = Item::Array(vec![z.clone(), e.clone(), Item::bytes(&[1])]);
+                let small_rcp = Item::Array(vec![z.clone(), e.clone(), Item::Null]);
+                let mut sigs: Vec<Item> = (0..n).map(|_| small_sig.clone()).collect();
+                let mut rcps: Vec<Item> = (0..n).map(|_| small_rcp.clone()).collect();
+                if let Some(i) = bad_at {
+                    sigs[i] = gen::kind_palette(ctx.rng.below(gen::KIND_PALETTE_LEN));
+                    rcps[i] = Item::Array(vec![z.clone(), Item::int(1), Item::Null]);
+                }
+                iff::offer(ctx, &Item::Array(vec![z.clone(), e.clone(), Item::Null, Item::Array(sigs)]), &[crate::model::Ty::Sign], 0, false, true);
+                iff::offer(ctx, &Item::Array(vec![z.clone(), e.clone(), Item::Null, Item::Array(rcps.clone())]), &[crate::model::Ty::Encrypt, crate::model::Ty::Recipient], 0, false, true);
+                iff::offer(ctx, &Item::Array(vec![z.clone(), e.clone(), Item::Null, z.clone(), Item::Array(rcps)]), &[crate::model::Ty::Mac], 0, false, true);
             }
             _ => {
                 // deep nesting: a fault at a chosen depth of a recipient chain / signer list
